@@ -31,4 +31,44 @@ CHECKS = {
   "note": "Trusted: TLC, the transcription of the ranges from the property statement. J1 (alias literals) is free. Token-level malformed statements are covered by C05 (totality) only.",
   "technique": "TLA+ acceptance predicate + pipeline refinement in TLC + trace validation of real verdicts on a boundary matrix",
  },
+ "C03": {
+  "text": "Machine.tla models from_raw + the run loop (one action per branch, in the code's order). TLC checks LoadOK / FetchInBounds / StopKinds / ExcMeans on all images up to N words over a representative word set at boundary origins (MC_Machine), and Trace_Debug.tla validates recorded runs of the real RunEnvironment (catalogue, seeded structured programs, arbitrary tiny images) event by event: load state, each fetch address/word/state diff/output/input, stop kind and exit code, loader refusals.",
+  "note": "Trusted: TLC; the cfg-gated hooks (state samples at loop top / after each command / after each instruction, with memory diffs computed over all 65,536 words; stdout/stderr tee; typed unwind instead of process exit); the harness's post-processing of hook events into load/loop/cmd/exec/stop events. Programs and scripts are sampled (catalogue + seeded), bounded by a step budget; J3 (`step` over a recursive call) is a listed known finding.",
+  "technique": 'TLA+ machine spec model-checked on bounded images + trace validation of real runs',
+ },
+ "C09": {
+  "text": "Debugger.tla wraps Machine.tla. TLC checks on MC_Debugger (catalogue x all non-mutating scripts <= K, then end of input) that the final machine equals the reference machine's (Transparent) and that HALT never executes while attached; Trace_Debug.tla validates real sessions made of non-mutating commands with arbitrary arguments and additionally compares final registers/PC/CC/all memory/output/exit kind with a run of the same image without debugger.",
+  "note": "Trusted: TLC; the cfg-gated hooks (state samples at loop top / after each command / after each instruction, with memory diffs computed over all 65,536 words; stdout/stderr tee; typed unwind instead of process exit); the harness's post-processing of hook events into load/loop/cmd/exec/stop events. Programs and scripts are sampled (catalogue + seeded), bounded by a step budget; J3 (`step` over a recursive call) is a listed known finding.",
+  "technique": 'TLA+ debugger spec: refinement-style invariant in TLC + trace validation of real sessions with reference-run comparison',
+ },
+ "C10": {
+  "text": 'Status machine of next_action as Debugger!Arm/DLoopTop/DCmd/DExec. TLC checks StepCounts / StepNoOvershoot / NoHaltWhileAttached on all scripts <= K (MC_Debugger); Trace_Debug.tla validates real sessions (random stepping scripts, all scripts up to a bounded length over the stepping alphabet on the catalogue, hand-written scenarios) including the exact pause tags and the machine state after every command.',
+  "note": "Trusted: TLC; the cfg-gated hooks (state samples at loop top / after each command / after each instruction, with memory diffs computed over all 65,536 words; stdout/stderr tee; typed unwind instead of process exit); the harness's post-processing of hook events into load/loop/cmd/exec/stop events. Programs and scripts are sampled (catalogue + seeded), bounded by a step budget; J3 (`step` over a recursive call) is a listed known finding.",
+  "technique": 'TLA+ debugger spec model-checked + trace validation of real stepping sessions',
+ },
+ "C11": {
+  "text": "bps is a set in the spec; DLoopTop/DExec carry the pause/re-arm rule. TLC checks BreakpointsRespected and BpsInUserSpace on MC_Debugger; Trace_Debug.tla validates real sessions with .break in every position, run-time add/remove/list by address/label/PC offset, loops revisiting breakpoints, every resuming command; the observed breakpoint list must be sorted, duplicate-free and equal to the spec's set after every command.",
+  "note": "Trusted: TLC; the cfg-gated hooks (state samples at loop top / after each command / after each instruction, with memory diffs computed over all 65,536 words; stdout/stderr tee; typed unwind instead of process exit); the harness's post-processing of hook events into load/loop/cmd/exec/stop events. Programs and scripts are sampled (catalogue + seeded), bounded by a step budget; J3 (`step` over a recursive call) is a listed known finding.",
+  "technique": 'TLA+ debugger spec model-checked + trace validation of real breakpoint sessions',
+ },
+ "C12": {
+  "text": '`initial` is written by load only (InitialFrozen) and `reset` makes the machine equal it (ResetRestores), checked by TLC on MC_Debugger; Trace_Debug.tla validates real histories (execution, move, goto, eval, self-modifying stores, stores below the origin and into the stack) followed by reset: the observed state, diffed over all 65,536 words, must equal the load state, and the run that follows is validated like a fresh one.',
+  "note": "Trusted: TLC; the cfg-gated hooks (state samples at loop top / after each command / after each instruction, with memory diffs computed over all 65,536 words; stdout/stderr tee; typed unwind instead of process exit); the harness's post-processing of hook events into load/loop/cmd/exec/stop events. Programs and scripts are sampled (catalogue + seeded), bounded by a step budget; J3 (`step` over a recursive call) is a listed known finding.",
+  "technique": 'TLA+ debugger spec model-checked + trace validation with full-memory diff after reset',
+ },
+ "C13": {
+  "text": 'Debugger!Resolve/ResolveUser do location arithmetic over the integers; TLC checks Confined (a command changes at most the word/register it names, refusals and read-only commands change nothing) on MC_Debugger; Trace_Debug.tla validates real move/goto/break/print/assembly commands on absolute, label+-offset and ^offset locations at the window and signed-16-bit boundaries with full state comparison.',
+  "note": "Trusted: TLC; the cfg-gated hooks (state samples at loop top / after each command / after each instruction, with memory diffs computed over all 65,536 words; stdout/stderr tee; typed unwind instead of process exit); the harness's post-processing of hook events into load/loop/cmd/exec/stop events. Programs and scripts are sampled (catalogue + seeded), bounded by a step budget; J3 (`step` over a recursive call) is a listed known finding.",
+  "technique": 'TLA+ debugger spec model-checked + trace validation of a location matrix',
+ },
+ "C15": {
+  "text": 'Debugger!CmdResult for eval = Assembler!EncodeInstr + ISA!Exec at the current PC with label operands meaning label addresses; refusal classes change nothing. Trace_Debug.tla validates real eval commands of every form at varying PCs plus refused and malformed texts.',
+  "note": "Trusted: TLC; the cfg-gated hooks (state samples at loop top / after each command / after each instruction, with memory diffs computed over all 65,536 words; stdout/stderr tee; typed unwind instead of process exit); the harness's post-processing of hook events into load/loop/cmd/exec/stop events. Programs and scripts are sampled (catalogue + seeded), bounded by a step budget; J3 (`step` over a recursive call) is a listed known finding.",
+  "technique": 'TLA+ spec of eval (assembler + ISA composed) + trace validation',
+ },
+ "C16": {
+  "text": 'Ghost counters iter/nExec/nCmd: ProgressBound is an invariant of MC_Debugger and is evaluated at the end of every validated real session; Terminates (<>(run # running)) is checked by TLC under weak fairness for all non-mutating scripts; real sessions issue every resuming command at PC = 0xFFFF / below origin / >= 0xFE00 / on HALT and must never exhaust the step budget.',
+  "note": "Trusted: TLC; the cfg-gated hooks (state samples at loop top / after each command / after each instruction, with memory diffs computed over all 65,536 words; stdout/stderr tee; typed unwind instead of process exit); the harness's post-processing of hook events into load/loop/cmd/exec/stop events. Programs and scripts are sampled (catalogue + seeded), bounded by a step budget; J3 (`step` over a recursive call) is a listed known finding.",
+  "technique": 'TLA+ debugger spec: progress invariant + liveness under fairness in TLC, trace validation with step budget',
+ },
 }
